@@ -317,7 +317,7 @@ def comprehension(eng, ctx, e):
             yield c0, itv
             continue
         what, coll = _iterable(eng, c0, itv)
-        if isinstance(e, ast.ListComp) and what == 'seq':
+        if isinstance(e, (ast.ListComp, ast.GeneratorExp)) and what == 'seq':
             fl = coll.fixed_len()
             if fl is not None and fl <= UNROLL_MAX:
                 yield from _comp_unroll(eng, e, c0, coll.items(), [])
